@@ -246,7 +246,7 @@ func (t *tb) term1(v ssa.Value) aff {
 			return t.atomOf("len(%s)", t.sliceTerm(c.Args[0]))
 		}
 		if f := c.StaticCallee(); f != nil && f.Pkg != nil && f.Pkg.Pkg.Path() == "encoding/binary" && strings.HasPrefix(f.Name(), "Uint") {
-			arg := c.Args[len(c.Args)-1]
+			arg := strip(c.Args[len(c.Args)-1])
 			e := "LE"
 			if strings.Contains(f.String(), "bigEndian") {
 				e = "BE"
